@@ -30,6 +30,7 @@ type Parser struct {
 	continuationNeeded bool
 	prevPos            int
 	nesting            int // current depth of nested expressions, see MaxNesting.
+	height             int // height of the tallest tree among the operands parsed so far by the expression in progress.
 	openRanges         int // number of `n:` without right side not (yet) accounted for by an index expression a[n:]
 
 	errors []string
@@ -340,7 +341,14 @@ func (p *Parser) addError(msg string) {
 
 func (p *Parser) parseExpression(precedence ast.Priority) ast.Node {
 	p.nesting++
-	defer func() { p.nesting-- }()
+	// The tree made here is as tall as its tallest operand plus the operators chained on top of it: a chain is
+	// applied without recursion, and to whatever a parenthesis, a block or a call nested below already built.
+	siblings, height := p.height, 0
+	p.height = 0
+	defer func() {
+		p.nesting--
+		p.height = max(siblings, height)
+	}()
 	if p.nesting > MaxNesting {
 		p.addError(fmt.Sprintf("expressions nested too deeply (more than %d levels)", MaxNesting))
 		return nil
@@ -364,6 +372,7 @@ func (p *Parser) parseExpression(precedence ast.Priority) ast.Node {
 		return nil
 	}
 	leftExp := prefix()
+	height = p.height + 1
 	if c, isComment := leftExp.(*ast.Comment); isComment && c.Type() == token.LINECOMMENT {
 		// A line comment ends with its line and is complete: an operator starting the next line (-x, [0], (y))
 		// begins a new expression, it doesn't take the comment as its left operand.
@@ -373,10 +382,9 @@ func (p *Parser) parseExpression(precedence ast.Priority) ast.Node {
 		p.nextToken()
 		return p.parseLambdaMulti(leftExp)
 	}
-	chain := 0 // each operator applied to the left operand makes the tree one level deeper, without recursion here.
 	for !p.peekTokenIs(token.SEMICOLON) && precedence < p.peekPrecedence() {
-		chain++
-		if p.nesting+chain > MaxNesting {
+		height = max(height, p.height) + 1 // each operator applied to the left operand makes the tree one level taller.
+		if p.nesting+height > MaxNesting {
 			p.addError(fmt.Sprintf("expressions nested too deeply (more than %d levels)", MaxNesting))
 			return nil
 		}
